@@ -51,7 +51,7 @@ def gen(rs: int, tier: str, index: int) -> dict:
             if c <= 2:
                 ent["cron"] = gen_expr(r, dense=True)
             elif c <= 7:
-                ent["time"] = {"us": r.choice(times), "repr": r.choice(["naive", "naive", "utc", "fixed:60"])}
+                ent["time"] = {"us": r.choice(times), "repr": r.choice(["naive", "naive", "utc", "fixed:60", "fixed:-330", "zi:Asia/Tokyo"])}
             elif c == 8:
                 ent["cron"] = gen_expr(r, dense=True)
                 ent["time"] = {"us": r.choice(times), "repr": "naive"}
@@ -137,6 +137,7 @@ def simulate(script: dict) -> Any:
                 if e.get("cron") is None and e.get("time") is None:
                     continue
                 model.append(_entry_view(t["name"], e))
+        declared = {e["id"]: e for t in script["tasks"] for e in t["schedule"] if "id" in e}
         src = LabelScheduleSource(broker)
         scheduler = TaskiqScheduler(broker, [src])
 
@@ -159,8 +160,11 @@ def simulate(script: dict) -> Any:
             for p in picks:
                 if p.cron or not p.time:
                     continue
+                # the fired entry as it was declared (identified by its marker argument), not as the source reported it
+                decl = declared.get(p.args[0]) if p.args else None
+                fired_time = make_time(decl["time"]) if decl is not None and decl.get("time") is not None else p.time
                 for i, mdl in enumerate(model):
-                    if mdl["task"] == p.task_name and mdl["time_us"] is not None and make_time({"us": mdl["time_us"], "repr": mdl["time_repr"]}) == p.time:
+                    if mdl["task"] == p.task_name and mdl["time_us"] is not None and make_time({"us": mdl["time_us"], "repr": mdl["time_repr"]}) == fired_time:
                         model.pop(i)
                         break
             listed = await compare(f"after step {step}")
